@@ -237,7 +237,7 @@ def pipelined(ctx, res):
         res.count('pipelined:' + d['kind'])
         for v in d['viol']:
             res.oracle_violations.append(v)
-    for x in shellprops.compare_digests(ctx, digs):
+    for x in shellprops.compare_digests(ctx, [d for d in digs if not d.get('fine')]):      # line-granular runs are oracle-only
         if x.get('unmodelled'):
             res.unmodelled += 1
         else:
